@@ -1,7 +1,8 @@
 ------------------------------ MODULE Gen_C04 ------------------------------
 (* Scenario generator for C04: {true,false,null}^2 x provenance^2 x logical/relational operators,   *)
 (* evaluated repeatedly in a loop, as if- and while-condition, then the literals are re-read.      *)
-EXTENDS Bloc, Json
+EXTENDS Bloc, Json, IOUtils
+Thorough == "VERIF_TIER" \in DOMAIN IOEnv /\ IOEnv.VERIF_TIER = "thorough"
 
 X3   == {"T", "F", "N"}
 Prov == {"const", "ctor", "var", "uvar", "func", "ufunc", "elem", "conv", "convvar"}
@@ -45,8 +46,17 @@ Progs == {BinProg(q[1], q[2], q[3], q[4], q[5]) :
             q \in {qq \in BinOpsG \X X3 \X Prov \X X3 \X Prov : Pinned(qq[1], qq[2], qq[4])}}
          \cup {NotProg(x, px) : x \in X3, px \in Prov}
 
+\* thorough tier: three operands, both groupings, all truth values, the logical operators, four provenances each
+LOps3 == {"and", "or", "xor"}
+Prov3 == {"const", "var", "func", "elem"}
+TriProg(o1, o2, x, px, y, py, z, pz, left) ==
+  LET a == Operand(x, px, "A")  b == Operand(y, py, "B")  c == Operand(z, pz, "C")
+  IN  a.pre \o b.pre \o c.pre \o Body(IF left THEN Bin(o2, Bin(o1, a.e, b.e), c.e) ELSE Bin(o1, a.e, Bin(o2, b.e, c.e)))
+Progs3 == IF Thorough
+          THEN {TriProg(o1, o2, x, px, y, py, z, pz, l) : o1 \in LOps3, o2 \in LOps3, x \in X3, y \in X3, z \in X3, px \in Prov3, py \in Prov3, pz \in Prov3, l \in BOOLEAN}
+          ELSE {}
 VARIABLE p
-Init == p \in Progs
+Init == p \in Progs \cup Progs3
 Next == UNCHANGED p
 Emit == PrintT("@@S " \o ToJson([prop |-> "C04",
           steps |-> << [op |-> "exec", ctx |-> 0, ast |-> p, text |-> Render(p)],
